@@ -53,6 +53,9 @@ type mCase struct {
 	Pi     []float64 `json:"pi,omitempty"`    // 4 base frequencies; 20 user frequencies; nil = model frequencies
 	Ts     []float64 `json:"ts"`              // branch lengths
 	Split  float64   `json:"split"`           // s = Split*t, P(t) = P(s) P(t-s)
+	// Seq: the lengths ONE Pij object is taken through, in this order (NewPij(Seq[0]), then SetLength);
+	// boundary values included: 0, below 1e-6, ordinary, large, a repeated one (empty: no walk)
+	Seq []float64 `json:"seq,omitempty"`
 	Regime string    `json:"regime"`          // how the parameters were drawn (class only)
 	// Default: the model object is used as its constructor leaves it, without InitModel; the
 	// parameters above are then the constructor's defaults (JC; K2P kappa = 1, "Default 1.0" in
@@ -224,6 +227,45 @@ func drawTs(t *rapid.T) []float64 {
 	return ts
 }
 
+// drawSeq draws the history of one Pij object: 2-5 lengths, each 0, tiny (1e-12..1e-6), ordinary
+// (1e-4..3), large (3..100) or the previous one again, in any order; a third of the draws end on 0
+// after a positive length (P(0) = I must hold for an object that held another matrix before), a
+// sixth start on 0
+func drawSeq(t *rapid.T) []float64 {
+	n := rapid.IntRange(2, 5).Draw(t, "seqn")
+	seq := make([]float64, n)
+	for i := range seq {
+		switch rapid.IntRange(0, 6).Draw(t, "seqclass") {
+		case 0, 1:
+			seq[i] = 0
+		case 2:
+			seq[i] = logUniform(t, 1e-12, 1e-6, "seqtiny")
+		case 3:
+			seq[i] = logUniform(t, 1e-4, 3, "seqt")
+		case 4:
+			seq[i] = logUniform(t, 3, tMax, "seqlarge")
+		case 5:
+			seq[i] = rapid.SampledFrom([]float64{1e-12, tMin, 1e-6, 1, tMax}).Draw(t, "seqedge")
+		default:
+			if i > 0 {
+				seq[i] = seq[i-1]
+			} else {
+				seq[i] = logUniform(t, 1e-4, 3, "seqt")
+			}
+		}
+	}
+	switch rapid.IntRange(0, 5).Draw(t, "seqshape") {
+	case 0, 1:
+		if seq[n-2] == 0 {
+			seq[n-2] = logUniform(t, 1e-4, 3, "seqt")
+		}
+		seq[n-1] = 0
+	case 2:
+		seq[0] = 0
+	}
+	return seq
+}
+
 func genDNA(t *rapid.T) mCase {
 	var c mCase
 	// JC has no parameter: one case in twelve
@@ -290,6 +332,7 @@ func fillDNA(t *rapid.T, c *mCase) {
 	}
 	c.Regime = regime
 	c.Ts = drawTs(t)
+	c.Seq = drawSeq(t)
 	c.Split = rapid.SampledFrom([]float64{0.5, 0.25, 0.001, 0.999, 0.37}).Draw(t, "split")
 }
 
@@ -320,6 +363,7 @@ func fillProt(t *rapid.T, c *mCase) {
 		}
 	}
 	c.Ts = drawTs(t)
+	c.Seq = drawSeq(t)
 	c.Split = rapid.SampledFrom([]float64{0.5, 0.25, 0.001, 0.999, 0.37}).Draw(t, "split")
 }
 
@@ -560,6 +604,11 @@ func domainOK(c mCase) bool {
 			return false
 		}
 	}
+	for _, t := range c.Seq {
+		if !in(t, 0, tMax) {
+			return false
+		}
+	}
 	if c.Pi != nil {
 		s := 0.0
 		for _, v := range c.Pi {
@@ -789,6 +838,10 @@ func checkClauses(m models.Model, c mCase, o *pbt.Outcome) (seen []matrix, err e
 		o.Class("%s", tBand(t))
 	}
 
+	if err = walkOne(m, c, qs, pi, o); err != nil {
+		return nil, err
+	}
+
 	// convergence to the stationary frequencies, where the oracle itself has converged at t = 100
 	conv := false
 	for _, q := range qs {
@@ -824,6 +877,94 @@ func checkClauses(m models.Model, c mCase, o *pbt.Outcome) (seen []matrix, err e
 	o.Class("model=%s", c.Model)
 	o.Class("%s: %s", c.Model, c.Regime)
 	return seen, nil
+}
+
+// walkOne takes ONE Pij object through the lengths of c.Seq (NewPij at the first, SetLength for the
+// others) and judges every state it is in with the clauses of the statement: P(0) = I, entries in
+// [0,1], rows summing to 1, detailed balance, equality with exp(Qt) of the harness and with a fresh
+// Pij of that length. What the object held before must not show.
+func walkOne(m models.Model, c mCase, qs []matrix, pi []float64, o *pbt.Outcome) error {
+	if len(c.Seq) == 0 {
+		return nil
+	}
+	n := m.NState()
+	var obj *models.Pij
+	prev := -1.0
+	for k, t := range c.Seq {
+		var e error
+		if k == 0 {
+			obj, e = models.NewPij(m, t)
+		} else {
+			e = obj.SetLength(t)
+		}
+		if e != nil {
+			return fmt.Errorf("%s: step %d of the lengths %v on one Pij object (length %g) fails: %v", c.Model, k, c.Seq, t, e)
+		}
+		p := read(obj, n)
+		where := fmt.Sprintf("%s: one Pij object taken through the lengths %v, at step %d (t=%g)", c.Model, c.Seq, k, t)
+		if t == 0 {
+			if d, at := maxDiff(p, identity(n)); d > tol {
+				return fmt.Errorf("%s: P(0) is not the identity: entry (%d,%d) = %.12g", where, at[0], at[1], p[at[0]][at[1]])
+			}
+		}
+		for i := 0; i < n; i++ {
+			sum := 0.0
+			for j := 0; j < n; j++ {
+				v := p[i][j]
+				if math.IsNaN(v) || v < 0 || v > 1+tol {
+					return fmt.Errorf("%s: P[%d][%d] = %.12g is not a probability", where, i, j, v)
+				}
+				sum += v
+			}
+			if math.Abs(sum-1) > tol {
+				return fmt.Errorf("%s: row %d sums to %.12g", where, i, sum)
+			}
+		}
+		for i := 0; i < n; i++ {
+			for j := i + 1; j < n; j++ {
+				if d := math.Abs(pi[i]*p[i][j] - pi[j]*p[j][i]); d > tol {
+					return fmt.Errorf("%s: detailed balance broken at (%d,%d): pi_i P_ij = %.12g, pi_j P_ji = %.12g", where, i, j, pi[i]*p[i][j], pi[j]*p[j][i])
+				}
+			}
+		}
+		best, bestAt, bestWant, judged := math.Inf(1), [2]int{}, 0.0, false
+		for _, q := range qs {
+			w := expm(q, t)
+			if !oracleSane(w) {
+				o.Ill++
+				continue
+			}
+			judged = true
+			if d, at := maxDiff(p, w); d < best {
+				best, bestAt, bestWant = d, at, w[at[0]][at[1]]
+			}
+		}
+		if judged && best > tol {
+			return fmt.Errorf("%s: P[%d][%d] = %.12g, exp(Qt) of the textbook rate matrix gives %.12g (difference %.3g)", where, bestAt[0], bestAt[1], p[bestAt[0]][bestAt[1]], bestWant, best)
+		}
+		fresh, e := observe(m, t)
+		if e != nil {
+			return fmt.Errorf("%s: NewPij(%g) fails: %v", c.Model, t, e)
+		}
+		if d, at := maxDiff(p, fresh); d > tol {
+			return fmt.Errorf("%s: P[%d][%d] = %.12g, a fresh NewPij of the same length gives %.12g", where, at[0], at[1], p[at[0]][at[1]], fresh[at[0]][at[1]])
+		}
+		switch {
+		case k == 0:
+		case t == 0 && prev > 0:
+			o.Class("walk: 0 after a positive length")
+		case t == prev:
+			o.Class("walk: length repeated")
+		case t > 0 && prev == 0:
+			o.Class("walk: positive after 0")
+		}
+		if t > 0 && t < tMin {
+			o.Class("walk: t<1e-8")
+		}
+		prev = t
+	}
+	o.Class("walk: %d lengths", len(c.Seq))
+	return nil
 }
 
 func oracleSane(w matrix) bool {
